@@ -149,6 +149,9 @@ class Interp:
 
     # ------------------------------------------------------------------ API
     def run(self, fn: ast.FunctionDef, args: Optional[Dict[str, Sym]] = None) -> List[Path]:
+        # names assigned somewhere in the function: reading one that is unbound on the current path means
+        # "whatever an earlier loop iteration left there" (or an UnboundLocalError)
+        self.top_locals = {n.id for n in ast.walk(fn) if isinstance(n, ast.Name) and isinstance(n.ctx, ast.Store)}
         paths: List[Path] = []
         prefix: List[bool] = []
         while True:
@@ -227,6 +230,8 @@ class Interp:
         fr = self.frames[-1]
         if name in fr:
             return fr[name]
+        if self.depth == 0 and name in getattr(self, "top_locals", ()) and len(self.frames) == 1:
+            return N("$stale:" + name)
         if name in self.consts:
             v = self.consts[name]
             try:
